@@ -623,6 +623,49 @@ where
       let rest := after.dropWhile (fun x => !wordBreak x)
       pre ++ expandSingleRelspec c (ch :: word) ++ (if rest.isEmpty then [] else go fuel rest)
 
+/-- the `use` part of `resolve_position`: x / y of a `use` translate its target, so the element's own
+    box is the target's box moved by that much. The position gets the target's size and, where the
+    element has `x` / `y`, is read through the target's corner; that corner is handed on for
+    `useWriteBack`. -/
+def usePosition (c : Ctx) (e : Elem) (p : Position) : Except Err (Position × Option (Rat × Rat)) :=
+  if e.name == cs!"use" then
+    match (e.getAttr cs!"href").orElse (fun _ => e.getAttr cs!"xlink:href") with
+    | some href => do
+      let r ← parseElref href
+      match c.get r with
+      | none => throw Err.reference
+      | some el =>
+        let t ← c.target (c.elems.length + 1) el
+        let sz ← t.size c
+        let p := (match sz with
+          | some (w, h) => { p with width := some w, height := some h }
+          | none => p)
+        let tb ← c.bb el
+        match tb with
+        | some b =>
+          -- (only a delta on an axis: the target is moved from where it stands)
+          let p := if e.hasAttr ['x'] then { p with xmin := p.xmin.map (· + b.x1) }
+            else if p.xmax.isNone && p.cx.isNone && p.dx.isSome then { p with xmin := some b.x1 } else p
+          let p := if e.hasAttr ['y'] then { p with ymin := p.ymin.map (· + b.y1) }
+            else if p.ymax.isNone && p.cy.isNone && p.dy.isSome then { p with ymin := some b.y1 } else p
+          -- (without a box for the position no attributes are written, so none are written back)
+          pure (p, if p.to_bbox.isSome then some (b.x1, b.y1) else none)
+        | none => pure (p, none)
+    | none => pure (p, none)
+  else pure (p, none)
+
+/-- … and back: x / y are the box's corner minus the target's corner -/
+def useWriteBack (e : Elem) (origin : Option (Rat × Rat)) : Except Err Elem :=
+  match origin with
+  | none => pure e
+  | some o => do
+    let e ← (match e.getAttr ['x'] with
+      | some v => do let n ← num v; pure (e.setAttr ['x'] (fstr (n - o.1)))
+      | none => pure e)
+    match e.getAttr ['y'] with
+    | some v => do let n ← num v; pure (e.setAttr ['y'] (fstr (n - o.2)))
+    | none => pure e
+
 /-- `resolve_position`, minus expression evaluation (attributes are assumed expression-free) -/
 def resolvePosition (c : Ctx) (e : Elem) : Except Err Elem := do
   let e ← e.handleContainment c
@@ -643,23 +686,8 @@ def resolvePosition (c : Ctx) (e : Elem) : Except Err Elem := do
       | some d => e.setAttr ['d'] (expandRelspec c d)
       | none => e
     else e)
-  let p := e.toPosition
-  let p ← (if e.name == cs!"use" then
-      match (e.getAttr cs!"href").orElse (fun _ => e.getAttr cs!"xlink:href") with
-      | some href => do
-        let r ← parseElref href
-        match c.get r with
-        | none => throw Err.reference
-        | some el =>
-          let t ← c.target (c.elems.length + 1) el
-          match ← t.size c with
-          | some (w, h) =>
-            let p := { p with width := some w, height := some h }
-            pure (if el.name == cs!"circle" || el.name == cs!"ellipse" then p.translate (w / 4) (h / 4) else p)
-          | none => pure p
-      | none => pure p
-    else pure p)
-  pure (setPositionAttrs p e)
+  let po ← usePosition c e e.toPosition
+  useWriteBack (setPositionAttrs po.1 e) po.2
 
 /-- `translated` -/
 def translated (e : Elem) (dx dy : Rat) : Except Err Elem :=
